@@ -169,6 +169,15 @@ static Type* objTypeAt(const DataLayout& DL, Value* v, uint64_t len) {
   v = v->stripPointerCasts();
   Type* e = v->getType()->getPointerElementType();
   if (e->isSized() && (e->isStructTy() || e->isArrayTy()) && DL.getTypeAllocSize(e) == len) return e;
+  {  // address of an object = address of its first member (recursively): &ctx == &ctx.first_string
+    Type* t = e;
+    for (int d = 0; d < 8 && t->isSized() && DL.getTypeAllocSize(t) > len; d++) {
+      if (auto* st = dyn_cast<StructType>(t)) { if (!st->getNumElements()) break; t = st->getElementType(0); }
+      else if (auto* at = dyn_cast<ArrayType>(t)) t = at->getElementType();
+      else break;
+      if (t->isSized() && (t->isStructTy() || t->isArrayTy()) && DL.getTypeAllocSize(t) == len) return t;
+    }
+  }
   auto* g = dyn_cast<GEPOperator>(v);
   if (!g) return nullptr;
   std::vector<Type*> tys; std::vector<bool> zero;
@@ -189,9 +198,36 @@ static Type* objTypeAt(const DataLayout& DL, Value* v, uint64_t len) {
     Type* t = i == 0 ? g->getSourceElementType() : tys[i];
     if (allz && t->isSized() && (t->isStructTy() || t->isArrayTy()) && DL.getTypeAllocSize(t) == len) return t;
   }
+  {  // the GEP addresses an aggregate larger than len: its leading member chain
+    Type* t = n ? tys[n - 1] : nullptr;
+    for (int d = 0; t && d < 8 && t->isSized() && DL.getTypeAllocSize(t) >= len; d++) {
+      if (t->isSized() && (t->isStructTy() || t->isArrayTy()) && DL.getTypeAllocSize(t) == len) return t;
+      if (auto* st = dyn_cast<StructType>(t)) { if (!st->getNumElements()) break; t = st->getElementType(0); }
+      else if (auto* at = dyn_cast<ArrayType>(t)) t = at->getElementType();
+      else break;
+    }
+  }
   return nullptr;
 }
 // C string literal behind a constant i8* (GEP into / pointer to a constant char array), or "" if not a literal
+// strlen of a pointer to the first character of a constant NUL-terminated global: folded at translation time
+static bool constStrLen(Value* v, uint64_t& len) {
+  v = v->stripPointerCasts();
+  if (auto* ce = dyn_cast<ConstantExpr>(v)) {
+    if (ce->getOpcode() != Instruction::GetElementPtr) return false;
+    for (unsigned k = 1; k < ce->getNumOperands(); k++) { auto* ci = dyn_cast<ConstantInt>(ce->getOperand(k)); if (!ci || !ci->isZero()) return false; }
+    v = ce->getOperand(0)->stripPointerCasts();
+  }
+  auto* g = dyn_cast<GlobalVariable>(v);
+  if (!g || !g->hasInitializer() || !g->isConstant()) return false;
+  if (isa<ConstantAggregateZero>(g->getInitializer())) { len = 0; return true; }
+  auto* cds = dyn_cast<ConstantDataSequential>(g->getInitializer());
+  if (!cds || !cds->isString()) return false;
+  StringRef raw = cds->getAsString();
+  size_t z = raw.find('\0');
+  if (z == StringRef::npos) return false;
+  len = z; return true;
+}
 static bool literalOf(Value* v, std::string& out) {
   v = v->stripPointerCasts();
   if (auto* ce = dyn_cast<ConstantExpr>(v)) if (ce->getOpcode() == Instruction::GetElementPtr) v = ce->getOperand(0)->stripPointerCasts();
@@ -631,6 +667,14 @@ struct FnEmit {
       if (intrinsic(*cb, lhs)) { if (auto* inv = dyn_cast<InvokeInst>(cb)) { body << "  "; edge(I.getParent(), inv->getNormalDest(), body); body << "\n"; } return; }
       if (Function* cf = cb->getCalledFunction()) {
         StringRef fn = cf->getName();
+        if (fn == "strlen" && cb->arg_size() == 1) {
+          uint64_t sl;
+          if (constStrLen(cb->getArgOperand(0), sl)) {
+            body << "  " << lhs << sl << "ull;\n";
+            if (auto* inv = dyn_cast<InvokeInst>(cb)) { body << "  "; edge(I.getParent(), inv->getNormalDest(), body); body << "\n"; }
+            return;
+          }
+        }
         if (fn == "vf_objcopy") {
           // whole-object copy requested by the library model: typed aggregate assignment when the static type is known
           auto* len = dyn_cast<ConstantInt>(cb->getArgOperand(2));
@@ -666,6 +710,41 @@ struct FnEmit {
               uint64_t sz = C.DL.getTypeAllocSize(e);
               if (isc ? (sz == cn) : true) { if (!best || C.DL.getTypeAllocSize(best) < sz) best = e; }
             }
+          {   // the result is stored (as i8*) into a field whose static type is T*: take T
+            std::vector<Type*> viaStore;
+            for (User* u : cb->users())
+              if (auto* st = dyn_cast<StoreInst>(u))
+                if (st->getValueOperand() == cb) {
+                  Type* dt = st->getPointerOperand()->stripPointerCasts()->getType()->getPointerElementType();
+                  for (int dd = 0; dd < 6 && dt->isStructTy() && cast<StructType>(dt)->getNumElements(); dd++) dt = cast<StructType>(dt)->getElementType(0);   // address of an object = address of its first member
+                  if (dt->isPointerTy()) { Type* e = dt->getPointerElementType(); if (e->isSized() && (e->isStructTy() || e->isArrayTy())) viaStore.push_back(e); }
+                }
+            if (!best) for (Type* e : viaStore) { uint64_t sz = C.DL.getTypeAllocSize(e); if (!isc || (sz && cn % sz == 0)) { if (!best || C.DL.getTypeAllocSize(best) < sz) best = e; } }
+          }
+          if (!best) {   // further evidence: the block is the destination of a whole-object copy, or is indexed / passed as a typed object
+            std::vector<Value*> work{cb}; std::set<Value*> seen;
+            while (!work.empty() && !best) {
+              Value* cur = work.back(); work.pop_back();
+              if (!seen.insert(cur).second) continue;
+              for (User* u : cur->users()) {
+                if (auto* bc = dyn_cast<BitCastInst>(u)) { work.push_back(bc); continue; }
+                if (auto* g = dyn_cast<GetElementPtrInst>(u)) { if (g->getPointerOperand() == cur) { Type* e = g->getSourceElementType(); if (e->isSized() && (e->isStructTy() || e->isArrayTy())) { uint64_t sz = C.DL.getTypeAllocSize(e); if (!isc || (sz && cn % sz == 0)) { best = e; break; } } } continue; }
+                if (auto* call = dyn_cast<CallBase>(u)) {
+                  Function* cf2 = call->getCalledFunction();
+                  if (cf2 && cf2->getName() == "vf_objcopy" && call->getArgOperand(0) == cur) { if (auto* len = dyn_cast<ConstantInt>(call->getArgOperand(2))) if (Type* t = objTypeAt(C.DL, call->getArgOperand(1), len->getZExtValue())) if (!isc || cn % len->getZExtValue() == 0) { best = t; break; } }
+                  else if (cf2 && !cf2->isIntrinsic()) for (unsigned k = 0; k < call->arg_size(); k++) if (call->getArgOperand(k) == cur && cur->getType()->isPointerTy()) { Type* e = cur->getType()->getPointerElementType(); if (e->isSized() && (e->isStructTy() || e->isArrayTy())) { uint64_t sz = C.DL.getTypeAllocSize(e); if (!isc || (sz && cn % sz == 0)) { best = e; break; } } }
+                }
+              }
+            }
+          }
+          if (!best && isc)   // constant-size array allocation: element type = largest cast-user aggregate whose size divides the allocation
+            for (User* u : cb->users())
+              if (auto* bc = dyn_cast<BitCastInst>(u)) {
+                Type* e = bc->getType()->getPointerElementType();
+                if (!e->isSized() || !(e->isStructTy() || e->isArrayTy())) continue;
+                uint64_t sz = C.DL.getTypeAllocSize(e);
+                if (sz && cn % sz == 0) { if (!best || C.DL.getTypeAllocSize(best) < sz) best = e; }
+              }
           if (!best && isc) {
             // no exactly-sized cast user: pick the identified struct of that size whose leading-member chain contains a cast user type
             std::set<Type*> ut;
@@ -677,15 +756,25 @@ struct FnEmit {
               if (hit) { best = st; break; }
             }
           }
-          if (!best && isc && cn >= 16) {
-            // last resort: the module has exactly one identified struct type of that size
-            Type* uniq = nullptr; int cnt = 0;
-            for (StructType* st : C.M.getIdentifiedStructTypes()) if (!st->isOpaque() && st->isSized() && C.DL.getTypeAllocSize(st) == cn) { uniq = st; cnt++; }
-            if (cnt == 1) best = uniq;
+          Type* scalar = nullptr;
+          if (!best && isc) {   // scalar cell (e.g. a reference count): type it as that scalar
+            for (User* u : cb->users())
+              if (auto* bc = dyn_cast<BitCastInst>(u)) { Type* e = bc->getType()->getPointerElementType(); if ((e->isIntegerTy() || e->isPointerTy() || e->isDoubleTy() || e->isFloatTy()) && e->isSized() && C.DL.getTypeAllocSize(e) == cn) { scalar = e; break; } }
           }
+          // among equally sized candidates prefer the outermost type (the one that has the other as its leading member chain)
+          if (best && isc)
+            for (User* u : cb->users())
+              if (auto* bc = dyn_cast<BitCastInst>(u)) {
+                Type* e = bc->getType()->getPointerElementType();
+                if (e == best || !e->isSized() || !e->isStructTy() || C.DL.getTypeAllocSize(e) != C.DL.getTypeAllocSize(best)) continue;
+                Type* t0 = e; bool wraps = false;
+                for (int d = 0; d < 6 && t0; d++) { auto* s0 = dyn_cast<StructType>(t0); t0 = (s0 && s0->getNumElements()) ? s0->getElementType(0) : nullptr; if (t0 == best) { wraps = true; break; } }
+                if (wraps) best = e;
+              }
           if (best) C.allocType[cb] = best;
           std::string sz = val(cb->getArgOperand(0));
           if (best) { std::string tn = C.ty(best); body << "  " << lhs << "(uint8_t*)malloc(sizeof(" << tn << ") * (" << sz << " / sizeof(" << tn << ")));\n"; }
+          else if (scalar) { std::string tn = C.ty(scalar); body << "  " << lhs << "(uint8_t*)malloc(sizeof(" << tn << "));\n"; }
           else body << "  " << lhs << "(uint8_t*)malloc(" << sz << ");\n";
           if (auto* inv = dyn_cast<InvokeInst>(cb)) { body << "  "; edge(I.getParent(), inv->getNormalDest(), body); body << "\n"; }
           return;
@@ -720,6 +809,15 @@ struct FnEmit {
             }
           }
         }
+        // Plain indirect call (e.g. the thunks of the std::function model): dispatch over the address-taken functions whose
+        // LLVM function type is exactly the call's type (typed pointers keep e.g. BasePlugin*(i8*) and PrekillHook*(i8*) apart).
+        if (!isv && !cb->getCalledFunction() && !isa<InlineAsm>(cb->getCalledOperand())) {
+          for (Function& fn : C.M) {
+            if (fn.isIntrinsic() || fn.getFunctionType() != cb->getFunctionType() || !fn.hasAddressTaken()) continue;
+            cands.push_back(&fn);
+          }
+          if (!cands.empty() && cands.size() <= 12) isv = true; else cands.clear();
+        }
         if (isv && !cands.empty()) {
           std::string fpv = val(cb->getCalledOperand());
           body << "  if (0) {}\n";
@@ -735,7 +833,7 @@ struct FnEmit {
             if (!I.getType()->isVoidTy() && fn->getReturnType() != I.getType()) call = "((" + C.ty(I.getType()) + ")" + call + ")";
             body << "  else if ((const void*)" << fpv << " == (const void*)&" << C.gname(fn) << ") { " << lhs << call << "; }\n";
           }
-          body << "  else { VF_FAIL(\"virtual call: target is not a function of that vtable slot\"); }\n";
+          body << "  else { VF_FAIL(\"indirect call: target is not among the functions of that vtable slot / type\"); }\n";
           afterCall(*cb);
           return;
         }
